@@ -204,9 +204,9 @@ def counter_programs(tier):
     J = []
     two = ['1:-|w', '1:-|wd', '1:-|wp', '1:-|n', '1:-|v', '1:- v|w', '2:- -|w', '2:-|- w', '1:+ - -|w', '1:+ -|- v', '2:- v|- v', '1:- w|w', '1:-|v w', '1:- wd|v', '2:-|wd v', '1:+|wp']
     for p in two: J.append((p, 4 if tier == 'quick' else 8, 1))
-    three = ['2:-|-|w', '2:-|-|wd', '2:-|-|n', '1:-|w|w', '1:-|w|wd', '1:-|n|w', '1:-|w|v', '2:-|- v|w', '1:+ -|-|w', '2:- w|-|v', '1:-|wd|wp', '2:-|-|v v', '1:+ -|- w|v', '3:-|-|- w']
+    three = ['1:-|+ -|w', '1:-|+ -|wd', '1:-|+ -|n', '1:- v|+ -|w', '0:+ -|+ -|w', '1:-|+ - v|w',  '2:-|-|w', '2:-|-|wd', '2:-|-|n', '1:-|w|w', '1:-|w|wd', '1:-|n|w', '1:-|w|v', '2:-|- v|w', '1:+ -|-|w', '2:- w|-|v', '1:-|wd|wp', '2:-|-|v v', '1:+ -|- w|v', '3:-|-|- w']
     for p in three: J.append((p, 2 if tier == 'quick' else 3, 1))
-    four = ['2:-|-|w|w', '2:-|-|w|n', '2:-|-|wd|v', '1:-|w|w|w', '3:-|-|-|w']
+    four = ['1:-|+ -|w|w', '1:-|+ -|w|v', '2:-|-|w|w', '2:-|-|w|n', '2:-|-|wd|v', '1:-|w|w|w', '3:-|-|-|w']
     for p in four: J.append((p, 1 if tier == 'quick' else 2, 1 if 'd' in p else 0))
     return J
 
